@@ -13,14 +13,16 @@ RULE = ("families: unequal row counts x chunk x source; unsupported dtypes x sou
         "file; object, set, unit, IDENT-value, set-identifier and header-id strings of 256 and 300 characters; non-ASCII "
         "characters in every text position; integers outside the range of every explicitly coded attribute, origin "
         "references, copy number 256; missing origin / channel / frame / logical file; wrong FILE-ID; out-of-domain "
-        "windows and chunk sizes; empty value lists - each on top of two valid contexts (minimal and rich). Oracle: the "
+        "windows and chunk sizes; empty value lists; valid but unusual spellings (byte-ordered / class cast dtypes, "
+        "big-endian / Fortran / read-only / strided arrays, tuples, numpy scalars, bool status ...) - each on top of two valid contexts (minimal and rich). Oracle: the "
         "classes the property lists as unrepresentable must raise; every other outcome is either an exception or a "
         "file that passes the strict parse, the component grammar and the full model comparison; non-trivial = every "
         "case (each carries an invalid or degenerate aspect)")
 ASSUMPTIONS = ["strict reader mc/rp66.py", "reference model mc/model.py", "an exception of any type counts as 'raises'",
                "for out-of-domain windows a successful write must contain exactly rows [max(from,0), min(to,rows))"]
 
-FAMILIES = ['rows', 'dtype', 'ndim', 'missing', 'longtext', 'nonascii', 'intrange', 'structure', 'window', 'empty']
+FAMILIES = ['rows', 'dtype', 'ndim', 'missing', 'longtext', 'nonascii', 'intrange', 'structure', 'window', 'empty',
+            'unusual']
 
 
 def shards(tier):
@@ -125,6 +127,13 @@ def cases(shard, tier):
                       {'to_idx': -1}, {'input_chunk_size': -1}, {'input_chunk_size': 0}, {'input_chunk_size': 1.5},
                       {'from_idx': 1.0}, {'to_idx': 2.0}):
                 yield {'family': fam, 'ctx': ctx, 'src': src, 'w': w, 'must': False}
+    elif fam == 'unusual':
+        # valid but unusual spellings of valid inputs: whatever is written must be faithful
+        for what in ('cast-big-endian-dtype', 'cast-dtype-class', 'cast-native-explicit', 'data-big-endian',
+                     'data-fortran-order', 'data-readonly', 'data-strided', 'tuple-values', 'numpy-scalar-values',
+                     'dimension-as-int', 'bool-status', 'name-with-spaces', 'chunk-larger-than-rows'):
+            for src in ('inline', 'dict', 'struct'):
+                yield {'family': fam, 'ctx': ctx, 'what': what, 'src': src, 'must': False}
     elif fam == 'empty':
         for kind, kw in (('axis', {'coordinates': []}), ('parameter', {'values': []}), ('parameter', {'zones': []}),
                          ('comment', {'text': []}), ('long_name', {'conditions': []}),
@@ -254,6 +263,47 @@ def make_spec(c):
         sp = base(ctx, src=c['src'])
         sp['write'].update(c['w'])
         return sp
+    if fam == 'unusual':
+        sp = base(ctx, src=c['src'])
+        w = c['what']
+        b2 = lambda **k: S.arr_spec('uint16', [3, 2], list(range(1, 7)), **k)
+        if w == 'cast-big-endian-dtype':
+            sp['ops'][3]['kw']['cast_dtype'] = {'$dtype': '>f4'}
+        elif w == 'cast-dtype-class':
+            sp['ops'][3]['kw']['cast_dtype'] = {'$dtype': 'float32', 'as': 'type'}
+        elif w == 'cast-native-explicit':
+            sp['ops'][3]['kw']['cast_dtype'] = {'$dtype': '<u4'}
+        elif w == 'data-big-endian':
+            _put(sp, c['src'], {'CHAN-B': b2(bo='>')})
+        elif w == 'data-fortran-order':
+            _put(sp, c['src'], {'CHAN-B': b2(layout='F')})
+        elif w == 'data-readonly':
+            _put(sp, c['src'], {'CHAN-B': b2(layout='readonly')})
+        elif w == 'data-strided':
+            _put(sp, c['src'], {'CHAN-B': b2(layout='strided')})
+        elif w == 'tuple-values':
+            sp['ops'].append(S.op_add('comment', 'CM', 'COMMENT', text={'$tuple': ['a', 'b']}))
+            sp['ops'].append(S.op_add('axis', 'AX2', 'AXIS-2', coordinates={'$tuple': [1.5, 2.5]}))
+        elif w == 'numpy-scalar-values':
+            sp['ops'].append(S.op_add('axis', 'AX2', 'AXIS-2', spacing={'$np': ['float32', 0.5]},
+                                      coordinates=[{'$np': ['int16', 3]}, {'$np': ['int16', 4]}]))
+        elif w == 'dimension-as-int':
+            sp['ops'].append(S.op_add('channel', 'CX', 'LONELY', dimension=4, element_limit=4))
+        elif w == 'bool-status':
+            sp['ops'].append(S.op_add('tool', 'T', 'TOOL', status=True))
+            sp['ops'].append(S.op_add('equipment', 'E', 'EQUIP', status=False))
+        elif w == 'name-with-spaces':
+            sp['ops'][2]['name'] = 'Chan A (first)'
+            if c['src'] != 'inline':
+                d = sp['write']['data']
+                for key in ('$datadict', '$h5'):
+                    if key in d:
+                        d[key] = {('Chan A (first)' if k.lstrip('/') == 'CHAN-A' else k): v for k, v in d[key].items()}
+                if '$struct' in d:
+                    d['$struct']['fields'] = [[('Chan A (first)' if k == 'CHAN-A' else k), v] for k, v in d['$struct']['fields']]
+        elif w == 'chunk-larger-than-rows':
+            sp['write']['input_chunk_size'] = 1000
+        return sp
     if fam == 'empty':
         sp = base('rich' + ('@' + ctx.split('@')[1] if '@' in ctx else ''))
         if ctx.startswith('minimal'):
@@ -327,6 +377,8 @@ def aspect(c):
         return '+'.join(f"{k}={v}" for k, v in sorted(c['w'].items()))
     if f == 'empty':
         return c['kind'] + '.' + next(iter(c['kw']))
+    if f == 'unusual':
+        return c['what']
     return ''
 
 
